@@ -815,6 +815,17 @@ fn main() {
             }
             std::process::exit(0);
         }
+        "probe" => {
+            let text: String = serde_json::from_str(&args.str("text-json", "\"\"")).unwrap_or_default();
+            let lib = vec![("lib/util.lua".to_string(), "local M = {}\nreturn M\n".to_string())];
+            let mut sl = Server::start("c26probe", caps(false), &lib);
+            let uri = sl.open("probe.lua", &text);
+            let method = args.str("method", "textDocument/completion");
+            let r = sl.request(&method, json!({"textDocument": {"uri": uri}, "position": {"line": args.u64("line", 0), "character": args.u64("character", 0)}, "context": {"triggerKind": 1}}), Duration::from_secs(30));
+            println!("{:?}", r);
+            sl.cleanup();
+            std::process::exit(0);
+        }
         "one" => {
             let text: String = serde_json::from_str(&args.str("text-json", "\"\"")).unwrap_or_default();
             let lib: Vec<(String, String)> = vec![];
